@@ -147,6 +147,35 @@ def prop_recheck(pid, dep_files):
     return res
 
 
+def coqchk():
+    """Independent re-check of the compiled development with coqchk (once per state of the
+    Coq sources; about two minutes). Returns {"ok", "axioms", "summary"}."""
+    h = hashlib.sha1()
+    for root, _, files in sorted(os.walk(COQ)):
+        for fn in sorted(files):
+            if fn.endswith(".v") or fn == "_CoqProject":
+                h.update(open(os.path.join(root, fn), "rb").read())
+    os.makedirs(CACHE, exist_ok=True)
+    cpath = os.path.join(CACHE, "coqchk-%s.json" % h.hexdigest()[:16])
+    if os.path.exists(cpath):
+        return json.load(open(cpath))
+    mods = []
+    for f in coq_files():
+        mods.append("CffVerif." + f[:-2].replace("/", "."))
+    rc, out, err = run("timeout 3000 coqchk -silent -o -Q . CffVerif " + " ".join(mods), cwd=COQ, check=False, timeout=3100)
+    txt = out + err
+    m = re.search(r"\* Axioms:(.*?)\n\s*\n\* Constants/Inductives relying on type-in-type:(.*?)\n\s*\n\* Constants/Inductives relying on unsafe \(co\)fixpoints:(.*?)\n\s*\n\* Inductives whose positivity is assumed:(.*?)\n", txt + "\n\n", re.S)
+    res = {"ok": rc == 0, "axioms": m.group(1).strip() if m else "?", "type_in_type": m.group(2).strip() if m else "?",
+           "unsafe_fixpoints": m.group(3).strip() if m else "?", "assumed_positivity": m.group(4).strip() if m else "?",
+           "modules": len(mods), "summary": txt[txt.find("CONTEXT SUMMARY"):][:1500]}
+    os.makedirs(EVIDENCE, exist_ok=True)
+    with open(os.path.join(EVIDENCE, "coqchk.txt"), "w") as fh:
+        fh.write("coqchk -silent -o -Q . CffVerif <%d modules of _CoqProject>\nexit %d\n%s\n" % (len(mods), rc, res["summary"]))
+    with open(cpath, "w") as fh:
+        json.dump(res, fh)
+    return res
+
+
 # ---------------------------------------------------------------- model binary
 
 def model_build():
@@ -274,6 +303,11 @@ class Check:
             self.fail_no_input("props/%s.v does not check" % self.pid, {"theorem": "props/%s.v" % self.pid, "log": r["prop_log"]})
         elif r["axioms"]:
             self.fail_no_input("property theorems depend on axioms", {"theorem": "Print Assumptions", "axioms": r["axioms"]})
+        if self.tier == "thorough" and r["build_ok"]:
+            ck = coqchk()
+            self.cov["coqchk"] = {k: ck[k] for k in ("ok", "axioms", "type_in_type", "unsafe_fixpoints", "assumed_positivity", "modules")}
+            if not ck["ok"] or any(ck[k] != "<none>" for k in ("axioms", "type_in_type", "unsafe_fixpoints", "assumed_positivity")):
+                self.fail_no_input("coqchk does not accept the compiled development without axioms or disabled checks", {"theorem": "coqchk", "summary": ck["summary"]})
         return r
 
     # -- bookkeeping
